@@ -430,6 +430,11 @@ il_index = _rec('il_index', IdL, I, I)
 _def(il_index, [_l, _x], z3.If(IDL.is_('inil', _l), z3.IntVal(0),
                                z3.If(IDL.get('icons', 'ihd', _l) == _x, z3.IntVal(0), 1 + il_index(IDL.get('icons', 'itl', _l), _x))))
 
+# position of the LAST occurrence of x in l (only meaningful when mem(x, l))
+il_rindex = _rec('il_rindex', IdL, I, I)
+_def(il_rindex, [_l, _x], z3.If(IDL.is_('inil', _l), z3.IntVal(0),
+                                z3.If(mem(_x, IDL.get('icons', 'itl', _l)), 1 + il_rindex(IDL.get('icons', 'itl', _l), _x), z3.IntVal(0))))
+
 # ---- the checker's capture rule (document: every traversed binder's variable must be JUDGED fresh in the plug) ---------------
 # The judgement used is a parameter (the reflected Rust judgement), so these are built by a factory.
 def mk_mcap(efresh, sfresh, suffix='rs'):
